@@ -42,6 +42,7 @@ def run(facts, rep):
     fence = full_fence_pred(facts)
     d1_monitor(facts, rep, fence)
     d2_typestate(facts, rep)
+    d2_recheck_between_prepare_and_commit(facts, rep)
     d3_relaxed_notify(facts, rep, fence)
     d4_release_notify(facts, rep)
     d5_agreement(facts, rep)
@@ -373,7 +374,15 @@ def d4_release_notify(facts, rep):
         defs = Defs(fn)
         pw = calls_named(fn, ('prepare_wait',))
         occ = [c[1] for c in calls_named(fn, ('occupy_free_slot',))]
-        slot_vars = vars_initialised_from(fn, occ)
+        slot_vars = set(vars_initialised_from(fn, occ))
+        # copies of the result (`index2 = slot`)
+        changed = True
+        while changed:
+            changed = False
+            for (vid, dn), val in defs.value_of.items():
+                if val is not None and vid not in slot_vars and fn.n(fn.strip(val)).get('k') == 'var' and fn.n(fn.strip(val)).get('v') in slot_vars:
+                    slot_vars.add(vid)
+                    changed = True
         if not pw or not slot_vars:
             raise AnalysisBroken('task_arena_impl::execute: prepare_wait / occupy_free_slot result not found')
 
@@ -930,3 +939,78 @@ def market_mandatory_allotment(facts, rep):
                key_extra='mandatory')
         if nreads == 0:
             raise AnalysisBroken('market::update_allotment: nothing is read on the soft-limit-0 branch')
+
+
+def d2_recheck_between_prepare_and_commit(facts, rep, clause='D2'):
+    """The two-phase wait only closes the lost-wake-up window if every condition that can make the sleep unnecessary is evaluated
+    AGAIN after the thread has registered itself (prepare_wait) and before it sleeps (commit_wait): a change that happens before the
+    registration is announced to nobody, so it must be seen by the re-check.  For every wait loop (a cycle through commit_wait)
+    of the analysed code: each condition that can leave the loop - identified by the call it tests, looking through local
+    variables - has an evaluation on every path from prepare_wait to commit_wait.  task_arena::execute on a full arena waits
+    for "the delegated task finished" and for "a slot became free"; testing the slot before registering loses the notification
+    of a thread that leaves in between, and the caller sleeps although a slot is free: its functor never runs."""
+    sites = 0
+    for fn in sorted(facts.fns.values(), key=lambda f: f.q):
+        if not fn.q.startswith('tbb::detail::r1::'):
+            continue
+        cw = calls_named(fn, ('commit_wait',))
+        pw = calls_named(fn, ('prepare_wait',))
+        if not cw or not pw:
+            continue
+        defs = Defs(fn)
+        for cpos, cs, cnode, cd in cw:
+            reached, ex, par = fn.walk(cpos)
+            cyc = set(q for q in reached if fn.can_reach(q, cpos))
+            if not cyc:
+                continue            # a single wait, no loop: the typestate rule (prepare -> commit | cancel) covers it
+            cyc.add(cpos)
+            cyc_blocks = set(q[0] for q in cyc)
+            # conditions that can leave the loop
+            exits = {}
+            for b in sorted(cyc_blocks):
+                blk = fn.blocks[b]
+                t = blk.get('term')
+                if not t or 'c' not in t or len(blk['succ']) != 2:
+                    continue
+                leaves = [si for si in (0, 1) if blk['succ'][si] is not None and blk['succ'][si] not in cyc_blocks]
+                if not leaves:
+                    continue
+                for a, truth in fn.cond_atoms(t['c'], True):
+                    src = fn.strip(resolve_cond_source(fn, defs, a))
+                    for x in fn.subtree(src) | fn.subtree(fn.strip(a)):
+                        nd = fn.nodes[x]
+                        if nd.get('k') == 'call' and (fn.callee(x) or {}).get('n') not in ('prepare_wait', 'commit_wait', 'cancel_wait'):
+                            d = fn.callee(x) or {}
+                            if d.get('n') and not (d.get('q') or '').startswith('std::'):
+                                exits.setdefault(d['n'], []).append(x)
+                    # the tested variable may have been assigned from the call earlier in the iteration
+                    an = fn.n(fn.strip(a))
+                    for y in fn.subtree(fn.strip(a)):
+                        yn = fn.nodes[y]
+                        if yn.get('k') == 'var' and yn.get('local'):
+                            for dn, val in (defs.values(y) or []):
+                                if val is None:
+                                    continue
+                                for x in fn.subtree(val):
+                                    nd = fn.nodes[x]
+                                    if nd.get('k') == 'call':
+                                        d = fn.callee(x) or {}
+                                        if d.get('n') and not (d.get('q') or '').startswith('std::') and fn.pos_of(x) in cyc:
+                                            exits.setdefault(d['n'], []).append(x)
+            if not exits:
+                continue
+            sites += 1
+            ppos = [p for p, _, _, _ in pw if p in cyc]
+            missing = []
+            for name, nodes in sorted(exits.items()):
+                evals = set(fn.pos_of(x) for _, sx, nd, d in calls_named(fn, (name,)) for x in [sx])
+                ok = bool(ppos) and all(every_path_passes(fn, p, lambda q, e, evals=evals: q in evals, end=cpos)[0] for p in ppos)
+                if not ok:
+                    missing.append(name)
+            rep.ob(clause, 'K4', fn, 'every condition that can end the wait loop is re-evaluated between prepare_wait and commit_wait (line %s)'
+                   % cnode['ln'], bool(ppos) and not missing,
+                   '%s is tested only before the thread registers on the monitor: a change announced between that test and prepare_wait '
+                   'wakes nobody - the thread sleeps although the condition holds (task_arena::execute: a slot is free, the delegated '
+                   'functor never runs)' % ', '.join(missing or ['(no prepare_wait inside the loop)']), ln=cnode['ln'], key_extra='recheck|%s' % fn.p)
+    if sites < 1:
+        raise AnalysisBroken('no wait loop through commit_wait with an exit condition found (task_arena_impl::execute)')
